@@ -3,7 +3,7 @@
 use crate::runner::{guarded, Cx, Violation};
 use a2lfile::{A2lError, A2lFile, Module};
 
-pub const FUEL_PER_BYTE: u64 = 4096;
+pub const FUEL_PER_BYTE: u64 = 512;
 
 fn with_fuel<T, F: FnOnce() -> T>(cx: &mut Cx, oracle: &str, what: &str, bytes: usize, f: F) -> Result<T, Violation> {
     let fuel = FUEL_PER_BYTE * (bytes as u64 + 64);
